@@ -46,7 +46,9 @@ PickTrace == /\ i < 0
                   \* been converted at another epoch (another scenario's start)
                   /\ first' = IF Tr[j].reused = 1 THEN 22663 ELSE -1
              /\ pc' = "posed"
-             /\ UNCHANGED <<lon, theta0, invErr, clockSec, k, siteEpoch, inertial, vel, join, siteLon>>
+             \* (the host's time zone of the run is recorded in the trace for the reader; as designed it
+             \*  has no influence, so the specification replays every trace in its UTC class)
+             /\ UNCHANGED <<lon, theta0, invErr, clockSec, k, siteEpoch, inertial, vel, join, siteLon, zone>>
 \* the scenario steps Tr[i].join times before the agent is added (Scenario.addSensor)
 TraceWait  == /\ i > 0 /\ join < Tr[i].join /\ Wait /\ UNCHANGED i
 TraceBuild == /\ i > 0 /\ join = Tr[i].join /\ Build /\ UNCHANGED i
